@@ -377,7 +377,8 @@ example : boundaryL [⟨-9, -7, -4, -3⟩, ⟨-6, -5, -8, -6⟩] = ⟨-9, 0, -8,
 section reduce
 variable {K : Type}
 
-/-- **`_disjoint` terminates with fuel = number of groups** (every step removes one group): the result is a fixed
+/-- **the model of `_disjoint` terminates with fuel = number of groups** (every step removes one group; the Python function
+makes one recursive call per step, so it needs as many stack frames): the result is a fixed
 point — no pair of groups with intersecting cached extents is left -/
 theorem reduce_terminates (fuel : Nat) (gs : List (Group K)) (h : gs.length ≤ fuel) :
     firstPair (disjoint fuel gs) = none :=
@@ -488,8 +489,9 @@ theorem reduce_total (fs : List (Fld K)) (hpos : ∀ f ∈ fs, 0 < f.arr.s0 ∧ 
   rw [sumList_eq_sum, sumList_eq_sum, hemb r c]
   exact (disjoint_total (fun f => f.emb r c) fs.length _).trans (single_total _ fs)
 
-/-- **totality of `reduce`**: every element of `reduce fs` is a field, for every collection of array fields (since the
-/repo fix of `_merge_shape` no merge can raise) -/
+/-- **totality of the model of `reduce`**: every element of `reduce fs` is a field, for every collection of array fields (since
+the /repo fix of `_merge_shape` no merge can raise). Of the Python code this holds up to the interpreter's recursion limit:
+`_disjoint` makes one recursive call per merge (≈ 990 merges; harness ASSUMPTIONS). -/
 theorem reduce_defined (fs : List (Fld K)) : ∃ out : List (Fld K), reduce fs = out.map some :=
   exists_eq_map_some _ (reduce_isSome fs)
 
@@ -727,6 +729,64 @@ example : (reduceZ [(⟨⟨⟨1, 1, fun _ _ => (2 : Int)⟩, 0, 0⟩, true⟩ : 
     [some (⟨0, 0, 0, 0⟩, 5, 0), some (⟨3, 3, -1, -1⟩, 0, 7)] := by decide
 
 end zerod_reduce
+
+/-! ## Compositions: a product fed into a merge / reduce (what `Plane.multiply` followed by `Wavefront.intensity` does) -/
+section compose
+variable {K : Type} [NonUnitalNonAssocSemiring K]
+
+/-- the data of a product is 0-d exactly when both operands' data are (NumPy: `() * ()` is `()`; anything else is an array) -/
+theorem mulZ_zero_d (a b p : ZFld K) (h : a.mul b = some p) : p.zd = (a.zd && b.zd) ∧ a.fld.mul b.fld = some p.fld := by
+  unfold ZFld.mul at h
+  cases hm : a.fld.mul b.fld with
+  | none => simp [hm] at h
+  | some q => simp only [hm, Option.map_some, Option.some.injEq] at h; subst h; exact ⟨rfl, rfl⟩
+
+/-- **product → merge in one statement**: if `a * b` (at most one of them one-element, read as an infinite constant) is not
+empty and is then merged with `c`, the result embeds as `emb a · emb b + emb c` at every pixel — 0-d data included -/
+theorem product_then_merge (a b c : ZFld K) (hab : (a.fld.size1 && b.fld.size1) = false)
+    (ha : 0 < a.fld.arr.s0 ∧ 0 < a.fld.arr.s1) (hb : 0 < b.fld.arr.s0 ∧ 0 < b.fld.arr.s1)
+    (hc : 0 < c.fld.arr.s0 ∧ 0 < c.fld.arr.s1) (p q : ZFld K) (hp : a.mul b = some p) (hq : mergeZ [p, c] = some q)
+    (r s : Int) : q.fld.emb r s = a.fld.sem r s * b.fld.sem r s + c.fld.emb r s := by
+  obtain ⟨_, hp'⟩ := mulZ_zero_d a b p hp
+  have hsem := mul_sem a.fld b.fld hab ha hb r s
+  rw [hp'] at hsem
+  simp only at hsem
+  have hpp := Fld.mul_pos_shape a.fld b.fld p.fld ha hb hp'
+  have hm := (mergeZ_spec [p, c] (by simp) (by
+    intro z hz; simp only [List.mem_cons, List.not_mem_nil, or_false] at hz
+    rcases hz with rfl | rfl
+    · exact hpp
+    · exact hc) q hq).2 r s
+  rw [hm, ← hsem]; simp [sumList]
+
+/-- **product → reduce in one statement**: the product (when not empty) together with further fields reduces to pairwise
+non-overlapping fields whose total is `emb a · emb b + Σ emb cs` at every pixel -/
+theorem product_then_reduce (a b : ZFld K) (cs : List (ZFld K)) (hab : (a.fld.size1 && b.fld.size1) = false)
+    (ha : 0 < a.fld.arr.s0 ∧ 0 < a.fld.arr.s1) (hb : 0 < b.fld.arr.s0 ∧ 0 < b.fld.arr.s1)
+    (hcs : ∀ z ∈ cs, 0 < z.fld.arr.s0 ∧ 0 < z.fld.arr.s1) (p : ZFld K) (hp : a.mul b = some p) :
+    ∃ out : List (ZFld K), reduceZ (p :: cs) = out.map some ∧
+      (∀ r s, sumList out (fun z => z.fld.emb r s) =
+        a.fld.sem r s * b.fld.sem r s + sumList cs (fun z => z.fld.emb r s)) ∧
+      (∀ i j (hij : i < j) (hj : j < out.length), intersect (out[i]'(by omega)).fld.extent out[j].fld.extent = false) := by
+  obtain ⟨_, hp'⟩ := mulZ_zero_d a b p hp
+  have hpp := Fld.mul_pos_shape a.fld b.fld p.fld ha hb hp'
+  obtain ⟨out, hout, htot, hdis⟩ := reduceZ_spec (p :: cs) (by
+    intro z hz; rcases List.mem_cons.mp hz with rfl | h
+    · exact hpp
+    · exact hcs z h)
+  refine ⟨out, hout, fun r s => ?_, hdis⟩
+  have hsem := mul_sem a.fld b.fld hab ha hb r s
+  rw [hp'] at hsem
+  simp only at hsem
+  rw [htot r s, ← hsem, sumList_eq_sum, sumList_eq_sum, List.map_cons, List.sum_cons]
+
+/-- non-vacuity: `A * B` (one shared pixel, value 40) merged with `D`, and a 0-d product of two 0-d fields -/
+example : ((((⟨Ex.A, false⟩ : ZFld Int).mul ⟨Ex.B, false⟩).bind (fun p => mergeZ [p, ⟨Ex.D, false⟩])).map
+      (fun q => (q.fld.emb 0 0, q.fld.emb (-1) 1, q.zd))) = some (40, 100, false) ∧
+    ((⟨⟨⟨1, 1, fun _ _ => (2 : Int)⟩, 0, 0⟩, true⟩ : ZFld Int).mul ⟨⟨⟨1, 1, fun _ _ => 3⟩, 0, 0⟩, true⟩).map
+      (fun p => (p.fld.emb 0 0, p.zd)) = some (6, true) := by decide
+
+end compose
 
 /-! ## Insertion -/
 section insert
